@@ -352,11 +352,21 @@ func (ir *ifdReader) ParseUint16(t Tag) uint16 {
 	return 0
 }
 
+// isByteType reports whether the tag's units are single bytes (ASCII, BYTE, UNDEFINED): the
+// types whose slot content does not depend on the byte order.
+func isByteType(t Tag) bool {
+	return t.IsType(tag.TypeASCII) || t.IsType(tag.TypeASCIINoNul) || t.IsType(tag.TypeByte) || t.IsType(tag.TypeUndefined)
+}
+
 // ParseString parses an ASCII value.
 // Non-embedded or embedded tag with variable byte length.
 // This function allocates.
 func (ir *ifdReader) ParseString(t Tag) string {
 	if t.IsEmbedded() {
+		if !isByteType(t) {
+			// text stored as SHORTs or LONGs would read differently in the two byte orders
+			return ""
+		}
 		t.EmbeddedValue(ir.buffer.buf[:4])
 		return string(trimNULBuffer(ir.buffer.buf[:t.Size()]))
 	}
@@ -380,6 +390,9 @@ func (ir *ifdReader) ParseString(t Tag) string {
 // This function does not allocate.
 func (ir *ifdReader) ParseBuffer(t Tag) []byte {
 	if t.IsEmbedded() {
+		if !isByteType(t) {
+			return nil
+		}
 		t.EmbeddedValue(ir.buffer.buf[:4])
 		return trimNULBuffer(ir.buffer.buf[:t.Size()])
 	}
